@@ -404,6 +404,7 @@ package flags
 //@   ensures[C02] a == nil && err == nil && forall(j, 0, nrunes(on), isFlag(shortOpt(s, on, j))) ==> forall(j, 0, nrunes(on), callarg(Option.Set, n0 + j, 0) == shortOpt(s, on, j) && callarg(Option.Set, n0 + j, 1) == nil)
 //@   ensures[C04] err != nil ==> is(err, *Error) && as(err, *Error) != nil
 //@   ensures[C03] len(s.args) <= len(old(s.args))
+//@   ensures[C03] same(s.args, old(s.args)) || (len(old(s.args)) > 0 && same(s.args, old(s.args)[1:]))
 //@   ensures[C09,C11] err == nil || isTyped(err, ErrUnknownFlag) ==> nfails(convert) == old(nfails(convert))
 //@   ensures[C07] len(on) > 0 && shortOpt(s, on, 0) != nil ==> string(shortOpt(s, on, 0).ShortName) == string(runeAt(on, 0))
 //@   assigns s.arg, s.args, Option.isSet, Option.preventDefault, Option.clearReferenceBeforeSet
@@ -525,14 +526,21 @@ package flags
 //@   at[C08,C03] call Parser.parseNonOption #1: !argumentIsOption(arg) && (p.Options&PassAfterNonOption == 0 || s.lookup.commands[arg] != nil)
 //@   at[C03] call parseState.addArgs "arg": !(p.Options&PassDoubleDash != 0 && arg == "--")
 //@   at[C03] call Parser.parseNonOption #1: !(p.Options&PassDoubleDash != 0 && arg == "--")
+// (C03, whole argument vector: as long as no unknown-option handler has replaced the pending tokens they are
+// a suffix of the original vector - nothing altered, invented or reordered among them - the token in hand is
+// the one just before that suffix, and no more tokens have been set aside than have been taken)
+//@   loop 2 invariant[C03] ncalls(Parser.UnknownOptionHandler) == old(ncalls(Parser.UnknownOptionHandler)) ==> len(s.args) <= len(args) && same(s.args, args[len(args)-len(s.args):])
+//@   loop 2 invariant[C03] ncalls(Parser.UnknownOptionHandler) == old(ncalls(Parser.UnknownOptionHandler)) ==> len(s.retargs) <= len(args) - len(s.args)
+//@   at[C03] call argumentIsOption #1: ncalls(Parser.UnknownOptionHandler) == old(ncalls(Parser.UnknownOptionHandler)) ==> len(s.args) < len(args) && same(s.args, args[len(args)-len(s.args):]) && arg == args[len(args)-len(s.args)-1] && s.arg == arg
+//@   at[C03] call parseState.addArgs "s.arg": ncalls(Parser.UnknownOptionHandler) == old(ncalls(Parser.UnknownOptionHandler)) ==> len(s.args) < len(args) && s.arg == args[len(args)-len(s.args)-1]
 //@   loop 2 decreases len(s.args)
 // (C10: whatever is still unconsumed when the option loop stops without an error - the tail after the
 // "--" terminator or after the first non-option under PassAfterNonOption - went through addArgs, i.e.
 // through the positional queue, as one batch; the exception is the stop at an unknown command word, which
 // ends in estimateCommand's error)
-//@   loop 2 exit[C10,C03] s.err == nil && len(s.args) > 0 && (len(s.command.commands) == 0 || s.command.SubcommandsOptional) ==> ncalls(parseState.addArgs) > old(ncalls(parseState.addArgs))
-//@   loop 2 exit[C10,C03] s.err == nil && len(s.args) > 0 && (len(s.command.commands) == 0 || s.command.SubcommandsOptional) ==> callarg(parseState.addArgs, ncalls(parseState.addArgs) - 1, 0) == s
-//@   loop 2 exit[C10,C03] s.err == nil && len(s.args) > 0 && (len(s.command.commands) == 0 || s.command.SubcommandsOptional) ==> same(callarg(parseState.addArgs, ncalls(parseState.addArgs) - 1, 1), s.args)
+//@   loop 2 exitcheck[C10,C03] s.err == nil && len(s.args) > 0 && (len(s.command.commands) == 0 || s.command.SubcommandsOptional) ==> ncalls(parseState.addArgs) > old(ncalls(parseState.addArgs))
+//@   loop 2 exitcheck[C10,C03] s.err == nil && len(s.args) > 0 && (len(s.command.commands) == 0 || s.command.SubcommandsOptional) ==> callarg(parseState.addArgs, ncalls(parseState.addArgs) - 1, 0) == s
+//@   loop 2 exitcheck[C10,C03] s.err == nil && len(s.args) > 0 && (len(s.command.commands) == 0 || s.command.SubcommandsOptional) ==> same(callarg(parseState.addArgs, ncalls(parseState.addArgs) - 1, 1), s.args)
 //@   loop 3 invariant s != nil && s.command != nil
 //@   loop 3 invariant ncalls(Command.fillParseState) > old(ncalls(Command.fillParseState)) && s.command == callarg(Command.fillParseState, ncalls(Command.fillParseState) - 1, 0)
 //@   loop 3 invariant s.err == nil ==> nfails(convert) == old(nfails(convert))
